@@ -11,6 +11,7 @@ inductive NameOp where
   | replaceAll (old : UInt8) (new : List UInt8) -- fileName = strings.ReplaceAll(fileName, old, new)
   | append (s : List UInt8)                   -- fileName = fileName + s
   | unique                                    -- fileName = uniqueFileName(fileName, written)
+  | mark                                      -- delete(allFiles, fileName): the file of this name is in use, the cleanup keeps it
   deriving Repr, DecidableEq, Inhabited
 
 end MosnVerif.Model.DirTypes
